@@ -40,11 +40,28 @@ def _work(H, chunk):
     viols = []
     ncalls = 0
     samp = None
+    cases = []
     for case in chunk:
-        d = case['doc']
+        cases.append(case['doc'])
+        # "over-long digits": a run of >= 15 nines is also tried as 5000 nines (beyond the interpreter's int-string limit)
+        d0 = case['doc']
+        if any(len(a.get('v', [])) >= 15 and a['v'][:15] == [57] * 15 for at in d0['attrs'] for a in at):
+            import copy
+            d1 = copy.deepcopy(d0)
+            for at in d1['attrs']:
+                for a in at:
+                    if a.get('v', [])[:15] == [57] * 15:
+                        k = 0
+                        while k < len(a['v']) and a['v'][k] == 57:
+                            k += 1
+                        a['v'] = [57] * 5000 + a['v'][k:]
+            cases.append(d1)
+    for d in cases:
         container, nodes = dom.build(d, bs4)
         els = [n for n in nodes[1:] if isinstance(n, bs4.Tag)]
         brief = replay.doc_brief(d)
+        if len(brief) > 300:
+            brief = brief[:140] + '...(%d chars)...' % len(brief) + brief[-100:]
         for css, obj in H['sels']:
             calls = [('select', lambda: obj.select(container)), ('select_one', lambda: obj.select_one(container)),
                      ('iselect', lambda: list(obj.iselect(container, 1)))]
